@@ -64,8 +64,12 @@ Succ(s, e) ==
          IF ~e.ok THEN (IF e.prov = "fail" THEN {s} ELSE {})
          ELSE IF e.ret # e.full THEN {}                                \* a partial or foreign history is not an answer
          ELSE IF e.prov = "ok"
-              THEN {[s EXCEPT !.known = @ \cup {e.full[i] : i \in 1..Len(e.full)}, !.addrs = @ \cup {e.a}], s,
-                    [s EXCEPT !.addrs = @ \cup {e.a}]}
+              \* (e.after > 0: only the transactions after a given one were asked for - e.full is that suffix, and the answer
+              \* does not make the address's history known in full)
+              THEN IF e.after = 0
+                   THEN {[s EXCEPT !.known = @ \cup {e.full[i] : i \in 1..Len(e.full)}, !.addrs = @ \cup {e.a}], s,
+                         [s EXCEPT !.addrs = @ \cup {e.a}]}
+                   ELSE {[s EXCEPT !.known = @ \cup {e.full[i] : i \in 1..Len(e.full)}], s}
          ELSE IF e.a \in s.addrs THEN {s} ELSE {}                      \* only a history answered in full before
     \* The world of a recorded history is static: the truth of every query is a field of the event (e.full, e.val,
     \* e.truth) and an answer is allowed only if it equals the truth AND a provider has answered it, now or before.
